@@ -33,7 +33,8 @@ func (p *c17) Rule() string {
 		"plus random deep trees, string-literal forms (doubled quotes, backslashes, parentheses, @) and templates with surrounding text, @@ and @identifier forms. " +
 		"Operands are literals and legacy references (contact.age, flow.q1, step.value, extra.n …) bound to random small numbers / short ASCII strings / fixed dates. " +
 		"Each template is migrated by expressions.MigrateTemplate and evaluated by excellent.Evaluator.Template in a context binding the migrated references; " +
-		"the value is compared with an independent reference evaluation of the legacy tree. Non-trivial case = at least one template whose value was compared and in which a function call is nested under an operator or inside another call; " +
+		"the value is compared with an independent reference evaluation of the legacy tree (numbers as decimals rounded to 6 places, text exactly, booleans ignoring the TRUE/true rendering change, dates through DAY/MONTH/YEAR/WEEKDAY/DAYS). " +
+		"Every mismatch is shrunk and put through repair experiments (parenthesise each call/operator of the legacy source in turn; replace backslashes / quotes in literals; separate an expression from the following text) which give the signature. Non-trivial case = at least one template whose value was compared and in which a function call is nested under an operator or inside another call; " +
 		"distinct = distinct bundle text."
 }
 
@@ -43,7 +44,7 @@ func (p *c17) Directed() []string {
 
 const (
 	quickCases       = 1500
-	thoroughCases    = 30000
+	thoroughCases    = 38000
 	quickPerCase     = 32
 	thoroughPerCase  = 128
 	focusedOutOfFour = 3 // of every 4 generated templates, 3 are focused on a (function, position) pair
@@ -441,11 +442,11 @@ func weight(n *node) int {
 			}
 		case kNum:
 			switch n.lit {
-			case "1":
-				w += 1
 			case "2":
+				w += 1
+			case "3":
 				w += 2
-			case "0", "3":
+			case "0", "1":
 				w += 3
 			default:
 				w += 3 + len(n.lit)
@@ -512,7 +513,6 @@ func (ck *checker) literalOf(n *node) *node {
 	return nil
 }
 
-// candidates lists smaller variants of root obtained by changing its i-th node.
 func paramIsLiteral(f *fnSpec, idx int) bool {
 	if f.variadic > 0 {
 		return f.params[0].lit
@@ -520,13 +520,22 @@ func paramIsLiteral(f *fnSpec, idx int) bool {
 	return idx < len(f.params) && f.params[idx].lit
 }
 
+// candidates lists smaller variants of root obtained by changing its i-th node.
 func (ck *checker) candidates(root *node, i int) []*node {
 	n, p, idx := nth(root, i)
 	var out []*node
-	// hoist a child of the same type (at the root: of any type that can be shown)
-	for _, c := range n.args {
-		if c.t == n.t || (p == nil && c.t != tD) {
-			out = append(out, replaced(root, i, c.clone()))
+	// hoist a child of the same type; at the root: any sub-expression that can be shown on its own
+	if p == nil {
+		n.walk(func(x, xp *node, _ int) {
+			if xp != nil && x.t != tD {
+				out = append(out, x.clone())
+			}
+		})
+	} else {
+		for _, c := range n.args {
+			if c.t == n.t {
+				out = append(out, replaced(root, i, c.clone()))
+			}
 		}
 	}
 	// replace by the literal of its value
@@ -541,7 +550,7 @@ func (ck *checker) candidates(root *node, i int) []*node {
 	if p != nil && !(p.k == kCall && fnByName[p.fn] != nil && paramIsLiteral(fnByName[p.fn], idx)) {
 		switch n.t {
 		case tN:
-			for _, l := range []string{"1", "2", "0", "3"} {
+			for _, l := range []string{"2", "3", "1", "0"} {
 				if !(n.k == kNum && n.lit == l) {
 					out = append(out, replaced(root, i, num(l)))
 				}
@@ -667,6 +676,15 @@ func mapStrings(n *node, f func(string) string) (*node, bool) {
 	return c, changed
 }
 
+// isAncestor: is the a-th node (pre-order) a proper ancestor of the b-th?
+func isAncestor(root *node, a, b int) bool {
+	if a >= b {
+		return false
+	}
+	n, _, _ := nth(root, a)
+	return b < a+n.size()
+}
+
 func isDateObserver(n *node) bool {
 	if n.k != kCall || len(n.args) != 1 || n.args[0].t != tD {
 		return false
@@ -718,6 +736,14 @@ func (ck0 *checker) classify(t *tmpl, first outcome) classification {
 		return ck.classifyTemplate(t, first, w)
 	}
 
+	// a date seen through DAY/MONTH/YEAR/WEEKDAY is a coarse observation: count days instead, if that fails too
+	if isDateObserver(root) {
+		fine := call("DAYS", tN, root.args[0].clone(), call("DATE", tD, num("2000"), num("1"), num("1")))
+		if ck.check(single(fine, true), false).clause != "" {
+			root = fine
+		}
+	}
+
 	// 2. shrink it
 	budget := 600
 	root = ck.shrink(root, &budget)
@@ -746,10 +772,6 @@ func (ck0 *checker) classify(t *tmpl, first outcome) classification {
 		}
 		return passes1(e)
 	}
-	effRoot := root
-	for isDateObserver(effRoot) && effRoot.args[0].k == kBin {
-		effRoot = effRoot.args[0]
-	}
 
 	// 3a. string literal experiments
 	if c, changed := mapStrings(root, func(s string) string { return strings.ReplaceAll(s, `\`, "/") }); changed && passes(c) {
@@ -765,7 +787,7 @@ func (ck0 *checker) classify(t *tmpl, first outcome) classification {
 	type repair struct {
 		kind   string
 		atomic bool
-		direct bool
+		idx    int
 		src    string
 	}
 	var reps []repair
@@ -787,7 +809,7 @@ func (ck0 *checker) classify(t *tmpl, first outcome) classification {
 		if !passes(variant) {
 			continue
 		}
-		rp := repair{direct: p == root || p == effRoot, src: printer{spaced: true}.print(variant)}
+		rp := repair{idx: i, src: printer{spaced: true}.print(variant)}
 		switch {
 		case n.k == kCall:
 			rp.kind = n.constructKind()
@@ -803,16 +825,33 @@ func (ck0 *checker) classify(t *tmpl, first outcome) classification {
 		reps = append(reps, rp)
 	}
 	if len(reps) > 0 {
-		// the splice that lost the grouping is at the root of the shrunk tree if one of its children repairs it
-		anyDirect := false
+		// Several wrappings may repair the same splice (the call whose migrated form is an operator expression,
+		// an operator inside or around it). Name the call if there is one (outermost), else the innermost operator.
+		anyCall := false
 		for _, rp := range reps {
-			anyDirect = anyDirect || rp.direct
+			anyCall = anyCall || strings.HasPrefix(rp.kind, "call:")
 		}
 		kinds := map[string]bool{}
 		atomicOnly := true
 		var srcs []string
-		for _, rp := range reps {
-			if anyDirect && !rp.direct {
+		for i, rp := range reps {
+			isCall := strings.HasPrefix(rp.kind, "call:")
+			if anyCall != isCall {
+				continue
+			}
+			skip := false
+			for j, other := range reps {
+				if i == j || strings.HasPrefix(other.kind, "call:") != isCall {
+					continue
+				}
+				if isCall && isAncestor(root, other.idx, rp.idx) { // a repairing call further out
+					skip = true
+				}
+				if !isCall && isAncestor(root, rp.idx, other.idx) { // a repairing operator further in
+					skip = true
+				}
+			}
+			if skip {
 				continue
 			}
 			kinds[rp.kind] = true
@@ -832,7 +871,15 @@ func (ck0 *checker) classify(t *tmpl, first outcome) classification {
 		return classification{"grouping-lost|" + strings.Join(ks, ","),
 			"operand grouping is lost by the migration (a join/template is spliced without parentheses): " + so.source + " → " + so.migrated + "; " + so.detail, w}
 	}
-	return classification{"other|" + so.clause + "|" + root.constructKind(), "migrated template does not keep the legacy meaning: " + so.source + " → " + so.migrated + "; " + so.detail, w}
+	culprit := root
+	for (isDateObserver(culprit) || (culprit.k == kCall && culprit.fn == "DAYS" && len(culprit.args) == 2)) && culprit.args[0].k != kRef {
+		culprit = culprit.args[0] // the observer of a date is not the construct that fails
+	}
+	ckind := culprit.constructKind()
+	if culprit.k == kRef {
+		ckind = "reference:" + strings.SplitN(culprit.ref, ".", 2)[0]
+	}
+	return classification{"other|" + so.clause + "|" + ckind, "migrated template does not keep the legacy meaning: " + so.source + " → " + so.migrated + "; " + so.detail, w}
 }
 
 // classifyTemplate: every expression is fine on its own, the failure needs the surrounding template.
